@@ -619,6 +619,9 @@ def replay(path):
     if ts:
         bad, err = run_model([((0, l), t) for l, t, _ in ts])
         print('model agrees with implementation:', (not bad) if bad is not None else err)
-    if sigs:
+    known = {f.get('signature') for f in core.load_findings() if f.get('property') == PROP and f.get('status') == 'known'}
+    for sg, _ in sigs:
+        if sg in known: print('KNOWN-FINDING: property=%s %s' % (PROP, sg))
+    if any(sg not in known for sg, _ in sigs):
         print('VIOLATION property=%s replay=%s' % (PROP, path)); return 1
     return 0
